@@ -143,9 +143,9 @@ PROPS = {
     },
     "C14": {
         "families": [{"family": "kv", "chk": "kv_chk_C14", "corr": "kv_corr_C14", "model_chk": True}, {"family": "ttl"}],
-        "level_text": "Proved on the model for all histories: the expiry in force after every successful call is the one it was given (absolute, or now+offset), kept by PreserveExpiry and xattr-only writes, 0 after deletes (C14_exp_in_force, every entry point); in every reachable state a document carrying expiry T has the expiry manager armed for a time <= T (C14_timer_covers_min_exp: invariant over postNewEvent/Touch scheduling, the timer callback and reopen); a firing at time t tombstones exactly the documents with 0 < exp <= t, posts a deletion event for each and leaves all others untouched, so none expires early (C14_fire_correct, C14_never_early). Tie to the code: the kv family compares the expiry manager's nextExp (hook accessor) and every stored expiry exactly after every step, with timer firings placed by the history; the ttl family runs real timers (2-4 s deadlines, shorten/lengthen/preserve/clear, close and reopen before or after the deadline) and checks poll times. Partial: 'within a few seconds' assumes an armed Go timer fires; the check-then-delete window inside a firing (a writer racing expireDocuments) is outside the sequential model. The whole executable trace checker (armed deadline covers every stored expiry after every step; a firing tombstones exactly the due documents with a deletion event each and leaves the rest alone; each call leaves the expiry its arguments say) is proved to accept every history of the model (C14_checker_accepts_every_model_history, KvC14Trace.v).",
+        "level_text": "Proved on the model for all histories: the expiry in force after every successful call is the one it was given (absolute, or now+offset), kept by PreserveExpiry and xattr-only writes, 0 after deletes (C14_exp_in_force, every entry point); in every reachable state a document carrying expiry T has the expiry manager armed for a time <= T (C14_timer_covers_min_exp: invariant over postNewEvent/Touch scheduling, the timer callback and reopen); a firing at time t tombstones exactly the documents with 0 < exp <= t, posts a deletion event for each and leaves all others untouched, so none expires early (C14_fire_correct, C14_never_early). Tie to the code: the kv family compares the expiry manager's nextExp (hook accessor) and every stored expiry exactly after every step, with timer firings placed by the history; the ttl family runs real timers (2-4 s deadlines, shorten/lengthen/preserve/clear, close and reopen before or after the deadline) and checks poll times. Partial: 'within a few seconds' assumes an armed Go timer fires. A firing is not atomic - the sweep reads the due keys of a collection and then removes them one by one - and the model has it so: SExpireScan wc / calls / SExpireK wc keys parked. For every store, time, collection, every list of keys the query may have returned and whatever was done since, a step of a sweep removes exactly the documents it is about whose expiry has passed when the step is taken and leaves every other document as it was (C14_sweep_correct), so a document given a later expiry, or none, between the sweep's query and its removals survives (C14_never_early_in_an_interrupted_sweep; Sweep.v); the sweep of the pinned tree, which deleted whatever its query had returned, is refuted with the history that shows it (C14_unchecked_sweep_refuted; the defect repaired by fix 2068c64 of /repo, witness corpus/kv/w19_sweep_window.jsonl). On the code the kv family holds the sweep at the hook point expiry.window of a chosen collection, makes calls (writes with no / later / earlier expiry, touches, deletes, xattr-only writes, inserts of new due documents, in that or another collection, through any handle; calls whose request to the expiry manager waits for the sweep are let park) and compares everything - scanned keys, every read-back, events, CAS values, the re-armed deadline - with the model. The whole executable trace checker (armed deadline covers every stored expiry after every step; a firing tombstones exactly the due documents with a deletion event each and leaves the rest alone; each call leaves the expiry its arguments say) is proved to accept every history of the model (C14_checker_accepts_every_model_history, KvC14Trace.v).",
         "level_note": "Real-time part uses wall-clock polls with a 3 s allowance; relative expiries are compared only when the wall-clock second did not change during the call. The expiry manager's nextExp is read through the verif-only accessor VerifNextExp. Trusted: Coq kernel + vm_compute, Go harness.",
-        "assumptions": KV_ASSUME + ["an armed time.AfterFunc timer fires at its deadline (Go runtime)", "timer firings in the kv family are placed by the history (the real timer's callback is parked by the expiry.fire hook and the callback is run synchronously by 'expire' steps)"],
+        "assumptions": KV_ASSUME + ["an armed time.AfterFunc timer fires at its deadline (Go runtime)", "timer firings in the kv family are placed by the history (the real timer's callback is parked by the expiry.fire hook and the callback is run synchronously by 'expire' steps)", "while a sweep is held in its window the expiry manager is locked and its nextExp cannot be read: the snapshots of in-window steps carry what has been asked of it so far (computed by the harness), the first real reading is the one after the sweep"],
     },
     "C19": _kv("C19", "Proved on the model's store, for every reachable store: the $_keyspace sub-query of a collection ranges over exactly the documents of that collection that have a body, with their current id, body and xattrs (C19_keyspace_is_live_docs), each once (C19_each_once); ORDER BY neither drops nor invents rows. A family of thirteen statements (ids, hex bodies, count, id filter, body-property filters - one with an unsigned-integer argument -, xattr-property filter, system- and user-xattr projections, a NULL leading column, DESC/LIMIT, a four-way self-join returning n^4 rows; documents include 8-byte JSON bodies and xattrs, see fix d158c59) is evaluated in the model and compared exactly, row text for row text, with Collection.Query on in-memory (pre-recorded iterator) and on-disk (streaming iterator) buckets after arbitrary histories over three collections; the trace checker re-evaluates each query over the key-value read-back of the collection (acceptance of model traces checked by evaluation). SQLite's evaluator (json_valid, ->>, hex, ORDER BY, LIMIT) is modelled by eval_query, not verified.", model_chk=True),
     "C12": _kv("C12", "Model of views.go/designdoc.go in Store.v: design documents, views.lastCas vs the collection's lastCas, incremental updateView (delete rows of documents with cas > views.lastCas, re-map them), cascade on purge/drop, JSON collation, startkey/endkey/inclusive_end/key/limit/descending, five JavaScript map functions (and their _count reduce variants) with Gallina twins. The executable checker states the property directly - a non-stale query equals the map function applied to the key-value read-back of the collection's current documents, collated and filtered - and is evaluated on implementation traces and on the model's traces Proved for every reachable store of the model (ViewProofs.v, ViewInv.v; theorem C12_nonstale_query_is_map_of_current_docs): the invariant 'every document of a view's collection is indexed (its index rows are what the map function emits for its current version) or pending (cas > views.lastCas and the collection's lastCas differs from views.lastCas), and no row belongs to a document that no longer exists' holds initially and is preserved by every step (all key-value entry points by exhaustive case analysis of Kv.kstep, WithMeta resets, purge, create/drop, PutDDoc/DeleteDDoc, stale and non-stale queries, expiry, reopen); hence a non-stale query answers from an index holding, per document id, exactly the rows of a from-scratch evaluation, independent of the update history (C12_independent_of_update_history). The model's trace acceptance is additionally checked by evaluation on every run. View queries are placed anywhere in histories with deletes, resurrections, xattr-only writes, purges, WithMeta writes, design-document replacement through another handle, collection drop and reopen; results are compared exactly with the model. otto (JavaScript), SQLite's ORDER BY with the JSON collation and sg-bucket's ProcessParsed are modelled, not verified; reduce/group and keys=[...] are outside the modelled subset.", model_chk=True),
@@ -163,9 +163,9 @@ PROPS = {
     },
     "C20": {
         "families": [{"family": "shut"}, {"family": "life"}],
-        "level_text": "Partial. Proved (Locks.v) for every number of threads and every schedule: threads that acquire locks in strictly increasing rank and release what they took never reach a stuck configuration and leave no lock held (C20_rank_discipline_no_deadlock, C20_no_lock_left); rosmar's code paths - write, read, feed start, CloseAndDelete, last Close, DropDataStore, OpenBucket, view update, transcribed by hand as lock sequences over bucket.mutex, cluster.lock, expiryManager.mutex, Collection.mutex, queue locks and the HLC mutex - follow that discipline (checked by computation), hence cannot deadlock among themselves (C20_paths_no_deadlock); the expiry timer's callback does not, and a stuck configuration against CloseAndDelete is exhibited (C20_timer_deadlock_refuted = KF-C20-deadlock). On the code: 132 scenarios, each in a child process with a watchdog - a racer (writer, sub-document writer, view query, feed start, another Close, the timer's callback) parked at a hook point (transaction begin / pre-commit / committed, before setLastCas, before posting, postEvent's snapshot, the subdoc window, feed.preregister, expiry.fire, expiry.window, close.unregistered) against CloseAndDelete, the last Close, a non-last Close and DropDataStore, in-memory and on-disk; outcome = ok / panic / deadlock / leaked feed or timer goroutine / another bucket unusable / raced call never returned, compared with the expected outcome (ok everywhere except the three known windows).",
-        "level_note": "The lock table is transcribed by hand and is not tied to the source mechanically; the scenarios are what watches it. 'Leaked goroutine' is judged from runtime.Stack and the feed counter 150 ms after the store shut down; the terminator-watcher goroutine of a feed whose client never closes its terminator is not counted. Trusted: Coq kernel + vm_compute, Go harness.",
-        "assumptions": ["the lock acquisition table of Locks.v matches the Go code (hand-transcribed)", "a watchdog of 5 s distinguishes a deadlock from slowness"],
+        "level_text": "Partial. Proved (Locks.v) for every number of threads and every schedule: threads that acquire locks in strictly increasing rank and release what they took never reach a stuck configuration and leave no lock held (C20_rank_discipline_no_deadlock, C20_no_lock_left); rosmar's code paths - write, read, feed start, CloseAndDelete, last Close, DropDataStore, OpenBucket, view update, transcribed by hand as lock sequences over bucket.mutex, cluster.lock, expiryManager.mutex, Collection.mutex, queue locks and the HLC mutex - follow that discipline (checked by computation), hence cannot deadlock among themselves (C20_paths_no_deadlock). The expiry timer's callback does not (it takes bucket.mutex for every removal while it holds expiryManager.mutex): against the CloseAndDelete of the pinned tree a stuck configuration is exhibited (C20_timer_deadlock_before_the_fix); three defects in that corner were repaired in /repo - the callback running on a closed store (116c2a3), the lock cycle with CloseAndDelete (2f1f33b), a feed registered after the store shut down (fcaf2af) - by a shut-down flag shared by all handles, set and waited on before bucket.mutex is taken. LockStop.v models that protocol (threads of Acq / Rel / SetStop / IfStopped actions) and proves for every schedule of the timer callback together with CloseAndDelete, a writer and a feed start; with the last Close, a writer and DropDataStore; and with both shutdown calls and a writer: no reachable configuration is stuck, no lock is left, and the sweep is never inside its removals while CloseAndDelete holds bucket.mutex (C20_timer_vs_close_and_delete_no_deadlock, C20_timer_vs_last_close_no_deadlock, C20_timer_vs_both_shutdowns_no_deadlock, C20_shutdown_leaves_no_lock, C20_sweep_never_inside_a_shutdown: the reachable set of each finite system is computed, shown to contain the initial configuration and to be closed under every thread's step, and checked member by member - the bound is one thread of each kind). On the code: 132 scenarios, each in a child process with a watchdog - a racer (writer, sub-document writer, view query, feed start, another Close, the timer's callback) parked at a hook point (transaction begin / pre-commit / committed, before setLastCas, before posting, postEvent's snapshot, the subdoc window, feed.preregister, expiry.fire, expiry.window, close.unregistered) against CloseAndDelete, the last Close, a non-last Close and DropDataStore, in-memory and on-disk; outcome = ok / panic / deadlock / leaked feed or timer goroutine / another bucket unusable / raced call never returned; every scenario must end ok.",
+        "level_note": "The lock tables (Locks.v, LockStop.v) are transcribed by hand and are not tied to the source mechanically; the scenarios are what watches them. 'Leaked goroutine' is judged from runtime.Stack and the feed counter 150 ms after the store shut down; the terminator-watcher goroutine of a feed whose client never closes its terminator is not counted. Trusted: Coq kernel + vm_compute, Go harness.",
+        "assumptions": ["the lock acquisition tables of Locks.v and LockStop.v match the Go code (hand-transcribed)", "a watchdog of 5 s distinguishes a deadlock from slowness"],
     },
     "C17": _kv("C17", "A removal by a firing of the expiry timer counts as exactly one mutation (C17_expiry_is_a_removal, KvExpiry.v). Full proof on the model: every successful mutation through any entry point raises the key's revision number by exactly one (1 on creation or re-creation after purge), failed calls leave it, and live events carry the stored number (C17_holds, all histories)."),
     "C03": {
